@@ -113,6 +113,8 @@ pub fn run_case(case: &Case, plan: &EnvPlan, opts: &RunOpts) -> RunResult {
         }
         Case::Sort(c) => {
             let knobs = opts.sort_knobs_override.clone().unwrap_or_else(|| c.knobs.clone());
+            // real-scale histories: keep one record per kind of call, not one per call
+            tx.lean = c.inserts.len() > 50_000;
             let mut o = None;
             guarded(&mut tx, |tx| o = Some(exec_sort(tx, c, &knobs)));
             sort_obs = o;
